@@ -223,6 +223,19 @@ def fresh_gin():
   return gin
 
 
+def same(a, b):
+  """Equality of encoded observations that does not conflate True with 1 (Python's == does, at any depth)."""
+  if isinstance(a, bool) or isinstance(b, bool):
+    return isinstance(a, bool) and isinstance(b, bool) and a == b
+  if isinstance(a, dict) and isinstance(b, dict):
+    return a.keys() == b.keys() and all(same(a[k], b[k]) for k in a)
+  if isinstance(a, (list, tuple)) and isinstance(b, (list, tuple)):
+    return len(a) == len(b) and all(same(x, y) for x, y in zip(a, b))
+  if type(a) is not type(b) and not (isinstance(a, (list, tuple)) and isinstance(b, (list, tuple))):
+    return False
+  return a == b
+
+
 def err_class(e):
   return type(e).__name__
 
